@@ -1231,3 +1231,35 @@ def witnesses(ctx):
         ctx.known_finding(fid, still)
     ctx.bounded.append({'name': 'witnesses of recorded findings', 'evaluations': n, 'distinct_nontrivial': n, 'rule': 'one witness per recorded finding of known/C03.json',
                         'samples': [{'id': 'C03-ident-not-reescaped', 'source': '.\\31 a { color: red }'}], 'bound': '%d witnesses' % n, 'exhaustive': True})
+
+
+# --------------------------------------------------------------------------------------------- domain 6: namespace redeclarations
+def redeclarations(ctx):
+    """every sequence of <= 4 @namespace rules over two URIs (each rule with a prefix of its own, or - one of them - the default namespace),
+    followed by a style rule that uses the last declaration: parsing drops the superseded declarations of a URI, and what is left must
+    round-trip (three declarations of one URI leave one rule, not two)"""
+    import itertools
+    t0 = time.time()
+    cssutils = _quiet()
+    n = 0
+    kinds = set()
+    for k in range(1, 5):
+        for uris in itertools.product('uv', repeat=k):
+            for default_at in [None] + list(range(k)):
+                parts = ['@namespace %s"http://%s";' % ('' if default_at == i else 'p%d ' % i, u) for i, u in enumerate(uris)]
+                last = ('p%d|a' % (k - 1)) if default_at != k - 1 else '|a'
+                text = ' '.join(parts) + ' %s, b { left: 0 }' % last
+                try:
+                    dom = cssutils.parseString(text)
+                except Exception as e:  # noqa: BLE001
+                    ctx.violation(CL_PARSE, 'redeclarations: %r: %s: %s' % (text, type(e).__name__, e), True, {'source': text})
+                    continue
+                finally:
+                    cssutils.log.raiseExceptions = True
+                n += 1
+                kinds.add((k, len(set(uris)), default_at is not None))
+                for cl, detail in roundtrip(dom):
+                    ctx.violation(cl, 'redeclarations: source %r: %s' % (text, detail), True, {'source': text})
+    ctx.bounded.append({'name': 'namespace redeclarations', 'evaluations': n, 'distinct_nontrivial': len(kinds),
+                        'rule': 'all sequences of <= 4 @namespace rules over two URIs x which (if any) is the default namespace, a style rule using the last one; parse, serialise, reparse, compare (projection and bytes) under the default and the lossless preferences',
+                        'bound': '<= 4 declarations, 2 URIs', 'samples': [{'source': '@namespace p0 "http://u"; @namespace p1 "http://u"; @namespace p2 "http://u"; p2|a, b { left: 0 }'}], 'wall_s': round(time.time() - t0, 2)})
